@@ -54,6 +54,9 @@ type Agg struct {
 	Violations   []Violation
 	SigCount     map[string]int
 	Inconclusive []string
+	// CaseInconclusive: single cases a check abandoned (wall-clock watchdog, ...); see finish
+	CaseInconclusive  []string
+	CaseInconclusiveN int
 }
 
 var registry = map[string]*Check{}
@@ -282,6 +285,20 @@ func FirstTacquitoFrame(dump string) string {
 	return "no-tacquito-frame"
 }
 
+// firstGoroutine returns the first goroutine block of a Go crash dump (the goroutine that
+// panicked or hit the fatal error), or the whole text if there is none.
+func firstGoroutine(dump string) string {
+	i := strings.Index(dump, "\ngoroutine ")
+	if i < 0 {
+		return dump
+	}
+	rest := dump[i+1:]
+	if j := strings.Index(rest, "\n\n"); j >= 0 {
+		return rest[:j]
+	}
+	return rest
+}
+
 func workDir(id string) string {
 	d := filepath.Join(Root(), ".build", "work", id, fmt.Sprint(os.Getpid()))
 	os.MkdirAll(d, 0755)
@@ -357,7 +374,12 @@ func aggregate(c *Check, tier string, seed int64, outcomes []workerOutcome, dir 
 			for k, v := range r.SigCount {
 				a.SigCount[k] += v
 			}
-			a.Inconclusive = append(a.Inconclusive, r.Inconclusive...)
+			a.CaseInconclusive = append(a.CaseInconclusive, r.Inconclusive...)
+			n := r.InconclusiveN
+			if n < len(r.Inconclusive) {
+				n = len(r.Inconclusive)
+			}
+			a.CaseInconclusiveN += n
 		}
 		if o.timedOut {
 			a.Inconclusive = append(a.Inconclusive, fmt.Sprintf("batch %d: watchdog fired (goroutine dump in replay dir)", o.batch))
@@ -365,14 +387,20 @@ func aggregate(c *Check, tier string, seed int64, outcomes []workerOutcome, dir 
 			continue
 		}
 		if o.died {
-			frame := FirstTacquitoFrame(o.log)
 			kind := "died"
 			if strings.Contains(o.log, "panic: ") {
 				kind = "panic"
 			} else if strings.Contains(o.log, "fatal error: ") {
 				kind = "fatal"
 			}
-			if c.CrashIsViolation || (kind != "died" && frame != "no-tacquito-frame") {
+			// the goroutine that panicked / hit the fatal error is the first one in the dump
+			culprit := firstGoroutine(o.log)
+			frame := FirstTacquitoFrame(culprit)
+			harnessOnly := kind != "died" && frame == "no-tacquito-frame" && strings.Contains(culprit, "verif/h/")
+			if harnessOnly {
+				a.Inconclusive = append(a.Inconclusive, fmt.Sprintf("batch %d: the harness itself failed (%s): %s", o.batch, kind, firstLine(o.log)))
+				saveText(c.ID, fmt.Sprintf("died-b%d.txt", o.batch), o.log)
+			} else if c.CrashIsViolation || (kind != "died" && frame != "no-tacquito-frame") {
 				sig := fmt.Sprintf("%s/process-%s/%s", c.ID, kind, frame)
 				a.Violations = append(a.Violations, Violation{Property: c.ID, Signature: sig,
 					What:  fmt.Sprintf("worker process for batch %d terminated (%s) in %s", o.batch, kind, frame),
@@ -475,6 +503,21 @@ func finish(a *Agg, wall time.Duration) int {
 		fmt.Printf("  what: %s\n", vs[0].What)
 		lines = append(lines, fmt.Sprintf("VIOLATION property=%s replay=%s", c.ID, rp))
 	}
+	// Single abandoned cases: a wall-clock watchdog on a loaded machine can hit one case in
+	// millions. Up to 3 of them, and at most 1 in 10 000 evaluated cases, are reported as "not
+	// judged" (the run says what it explored); more than that means the workload itself did not
+	// run properly and the whole run is inconclusive.
+	notJudged := []string{}
+	if a.CaseInconclusiveN > 0 {
+		if a.CaseInconclusiveN <= 3 && int64(a.CaseInconclusiveN)*10000 <= a.Evals {
+			notJudged = a.CaseInconclusive
+		} else {
+			a.Inconclusive = append(a.Inconclusive, a.CaseInconclusive...)
+			if a.CaseInconclusiveN > len(a.CaseInconclusive) {
+				a.Inconclusive = append(a.Inconclusive, fmt.Sprintf("(%d cases abandoned in all)", a.CaseInconclusiveN))
+			}
+		}
+	}
 	distinct := len(a.Classes)
 	floor := 2
 	if c.MinClasses != nil {
@@ -496,6 +539,7 @@ func finish(a *Agg, wall time.Duration) int {
 		"class_counts":        topClasses(a.Classes, 400),
 		"observed":            a.Counters,
 		"inconclusive":        a.Inconclusive,
+		"cases_not_judged":    notJudged,
 		"violation_signatures": func() map[string]int {
 			m := map[string]int{}
 			for _, s := range order {
@@ -532,6 +576,9 @@ func finish(a *Agg, wall time.Duration) int {
 	}
 	for _, l := range lines {
 		fmt.Println(l)
+	}
+	for _, nj := range notJudged {
+		fmt.Printf("NOTE property=%s one case not judged: %s\n", c.ID, nj)
 	}
 	if newViol > 0 {
 		return 1
